@@ -1322,3 +1322,55 @@ Section Touched.
       apply untouched_app; [apply members_untouched|exact Hu].
   Qed.
 End Touched.
+
+(** * 13. A loop that was not aborted created no phase object: what it leaves was there, with the same objects/owners *)
+Section BackOk.
+  Variable force : bool.
+  Local Notation c := (Build_cfg FObjectSet force).
+
+  Lemma remote_reconcile_back_ok sw s ph rem sw1 e1 rem1 active failed kind ns nm p' :
+    remote_reconcile sw s ph rem = (sw1, e1, rem1, RROk active failed) ->
+    find_phase (sw_phases sw1) kind ns nm = Some p' ->
+    exists p, find_phase (sw_phases sw) kind ns nm = Some p /\ op_objects p = op_objects p' /\ op_owners p = op_owners p'.
+  Proof.
+    intros H Hf.
+    destruct ((phase_kind s =? kind) && (oi_ns (os_id s) =? ns) && (pobj_name s ph =? nm)) eqn:E.
+    2:{ destruct (remote_reconcile_inv _ _ _ _ _ _ _ _ H) as (_ & _ & _ & _ & Hfr & _). rewrite (Hfr _ _ _ E) in Hf. eauto. }
+    apply andb_true_iff in E. destruct E as [E E3]. apply andb_true_iff in E. destruct E as [E1 E2].
+    apply N.eqb_eq in E1, E2, E3. subst kind ns nm.
+    unfold remote_reconcile, pobj_name in *. cbn [desired_phase op_id oi_kind oi_ns oi_name op_paused] in H.
+    set (name := join_name (oi_name (os_id s)) (ph_name ph)) in *.
+    destruct (find_phase (sw_phases sw) (phase_kind s) (oi_ns (os_id s)) name) as [cur|] eqn:Ef; [|discriminate].
+    destruct (find_phase_key _ _ _ _ _ Ef) as (Hk & Hns & Hn).
+    destruct (negb _); [discriminate|].
+    destruct (Bool.eqb _ _); [injection H as <- _ _ _; rewrite Hf in Ef; injection Ef as <-; eauto|].
+    injection H as <- _ _ _. cbn [sw_phases with_phases] in Hf.
+    set (cur' := phase_with cur _ _ _ _ _ _) in *.
+    pose proof (find_put_phase_same (sw_phases sw) cur') as Hx. change (op_id cur') with (op_id cur) in Hx.
+    rewrite Hk, Hns, Hn, Hf in Hx. injection Hx as ->. exists cur. auto.
+  Qed.
+
+  Lemma rpm_back_ok s ow prev phs : forall sw acc rem sw' evs rem' ctrlof failed kind ns nm p',
+    reconcile_phases_m force sw s ow prev phs acc rem = (sw', evs, rem', MOk ctrlof failed) ->
+    find_phase (sw_phases sw') kind ns nm = Some p' ->
+    exists p, find_phase (sw_phases sw) kind ns nm = Some p /\ op_objects p = op_objects p' /\ op_owners p = op_owners p'.
+  Proof.
+    induction phs as [|ph rest IH]; intros sw acc rem sw' evs rem' ctrlof failed kind ns nm p' H Hf.
+    - cbn in H. injection H as <- _ _ _ _. eauto.
+    - rewrite rpm_cons in H. destruct (ph_class ph).
+      + destruct (remote_reconcile sw s ph rem) as [[[sw1 e1] rem1] r1] eqn:E1.
+        destruct r1 as [|active fl]; [discriminate|].
+        destruct fl; [injection H as <- _ _ _ _; eapply remote_reconcile_back_ok; eauto|].
+        destruct (reconcile_phases_m force sw1 s ow prev rest (acc ++ active) rem1) as [[[sw2 e2] rem2] r2] eqn:E2.
+        injection H as <- _ _ ->. destruct (IH _ _ _ _ _ _ _ _ _ _ _ _ E2 Hf) as (p1 & Hp1 & Ho1 & Hw1).
+        destruct (remote_reconcile_back_ok _ _ _ _ _ _ _ _ _ _ _ _ _ E1 Hp1) as (p & Hp & Ho & Hw).
+        exists p. split; [exact Hp|split; congruence].
+      + destruct (reconcile_phase c idw (sw_w sw) ow prev false (ph_objects ph)) as [[w1 e1] r1] eqn:E1.
+        destruct r1 as [e|vs|actual fl]; [discriminate|discriminate|].
+        destruct fl as [|f fs]; [|injection H as <- _ _ _ _; eauto].
+        cbv zeta in H.
+        match type of H with context [reconcile_phases_m force ?a s ow prev rest ?b ?d] =>
+          destruct (reconcile_phases_m force a s ow prev rest b d) as [[[sw2 e2] rem2] r2] eqn:E2 end.
+        injection H as <- _ _ ->. exact (IH _ _ _ _ _ _ _ _ _ _ _ _ E2 Hf).
+  Qed.
+End BackOk.
